@@ -147,7 +147,7 @@ theorem checkoutNode_linked {ctx : Ctx κ} (g : Good ctx) (s : Store κ) :
     simp only [HoldsNode] at h
     obtain ⟨o, ho, _⟩ := h
     obtain ⟨k, rfl⟩ : ∃ k, fuel = k + 1 := ⟨fuel - 1, by simp only [depth] at hf; omega⟩
-    simp [checkoutNode, Node.isDir, digestAs, linked, checkoutFile, quick, hasSum_H g,
+    simp [checkoutNode, Node.isDir, digestAs, linked, checkoutFile, upToDateCopy, quick, hasSum_H g,
       Store.has_of_get ho, ho]
   | .dir es, ch, nm, fuel, hp, hs, hn, h, hf => by
     have hp' : plainList es = true := by simpa [Node.plain] using hp
@@ -178,6 +178,105 @@ theorem checkoutChildren_linked {ctx : Ctx κ} (g : Good ctx) (s : Store κ) :
     have h2 := checkoutChildren_linked g s r ch fuel W (plainList_cons hp).2
       (sortedList_cons hs).2 (namesOK_tail hn) h.2 hdr (fun e he => hW e (by simp [he]))
     simp only [childrenAs, checkoutChildren, hl, h1, setEntry_same W nm _ hl]
+    exact h2
+end
+
+/-! ## checkout over a workspace that is already there (any strategy pair) -/
+
+theorem alookup_append_fresh {β : Type} : ∀ (pre : List (Name × β)) (nm : Name) (b : β)
+    (rest : List (Name × β)), (∀ p ∈ pre, p.1 ≠ nm) →
+      alookup (pre ++ (nm, b) :: rest) nm = some b
+  | [], nm, b, rest, _ => by simp [alookup]
+  | (k, v) :: r, nm, b, rest, h => by
+    have hk : k ≠ nm := h (k, v) (by simp)
+    simp only [List.cons_append, alookup, beq_iff_eq, hk, if_false]
+    exact alookup_append_fresh r nm b rest (fun p hp => h p (by simp [hp]))
+
+theorem setEntry_append_fresh : ∀ (pre : List (Name × Node κ)) (nm : Name) (b c : Node κ)
+    (rest : List (Name × Node κ)), (∀ p ∈ pre, p.1 ≠ nm) →
+      setEntry (pre ++ (nm, b) :: rest) nm c = pre ++ (nm, c) :: rest
+  | [], nm, b, c, rest, _ => by simp [setEntry]
+  | (k, v) :: r, nm, b, c, rest, h => by
+    have hk : k ≠ nm := h (k, v) (by simp)
+    simp only [List.cons_append, setEntry, beq_iff_eq, hk, if_false]
+    rw [setEntry_append_fresh r nm b c rest (fun p hp => h p (by simp [hp]))]
+
+/-- the shape of the workspace after checking out with `strat2` over what `strat1` left: copies
+are left alone (they are up to date), exact links follow the second strategy -/
+def coStrat : Strat → Strat → Strat
+  | .copy, _ => .copy
+  | .link, strat2 => strat2
+
+theorem checkoutFile_over {ctx : Ctx κ} (g : Good ctx) {s : Store κ} {x : κ} {o : Obj κ}
+    (h : s.get (ctx.H x) = some o) (hb : o.bytes ctx = x) (strat1 strat2 : Strat) :
+    checkoutFile ctx strat2 (some (wsAfter ctx strat1 (.file x))) (ctx.H x) s
+      = .ok (wsAfter ctx (coStrat strat1 strat2) (.file x)) := by
+  have hh := hasSum_H g x
+  have hhas := Store.has_of_get h
+  cases strat1 <;> cases strat2 <;>
+    simp [checkoutFile, upToDateCopy, quick, hh, hhas, h, hb, wsAfter, linked, coStrat]
+
+mutual
+/-- `checkoutNode` with `strat2` over the workspace a `strat1` commit / checkout left, from any
+store holding the tree: the exact result. -/
+theorem checkoutNode_over {ctx : Ctx κ} (g : Good ctx) (s : Store κ) (strat1 strat2 : Strat) :
+    ∀ (t : Node κ) (ch : Choice) (nm : Bytes) (fuel : Nat),
+    t.plain = true → t.sorted = true → NamesOK ctx t → HoldsNode ctx s ch nm t →
+    depth t ≤ fuel →
+      checkoutNode ctx strat2 s fuel (some (wsAfter ctx strat1 t))
+        ⟨nm, digestAs ctx ch nm t, t.isDir⟩ = .ok (wsAfter ctx (coStrat strat1 strat2) t)
+  | .file x, _, nm, fuel, _, _, _, h, hf => by
+    simp only [HoldsNode] at h
+    obtain ⟨o, ho, hb⟩ := h
+    obtain ⟨k, rfl⟩ : ∃ k, fuel = k + 1 := ⟨fuel - 1, by simp only [depth] at hf; omega⟩
+    have hco := checkoutFile_over g ho hb strat1 strat2
+    cases strat1 <;>
+      simpa [checkoutNode, Node.isDir, digestAs, wsAfter, linked] using hco
+  | .dir es, ch, nm, fuel, hp, hs, hn, h, hf => by
+    have hp' : plainList es = true := by simpa [Node.plain] using hp
+    have hs' : sortedList es = true := by simpa [Node.sorted] using hs
+    have hn' : NamesOKList ctx es := namesOK_dir hn
+    obtain ⟨hhas, hread⟩ := readManifest_holds g hs' hn' h
+    have hsum := hasSum_digestAs_dir g ch nm es
+    obtain ⟨k, rfl⟩ : ∃ k, fuel = k + 1 := ⟨fuel - 1, by simp only [depth] at hf; omega⟩
+    have hk : depthList es ≤ k := by simp only [depth] at hf; omega
+    simp only [HoldsNode] at h
+    have hch := checkoutChildren_over g s strat1 strat2 es ch k hp' hs' hn' h.2 hk [] (by simp)
+    simp only [List.nil_append] at hch
+    generalize digestAs ctx ch nm (.dir es) = d at hhas hread hsum ⊢
+    simp only [wsAfter_dir, Node.isDir]
+    rw [checkoutNode]
+    simp only [if_true, hsum, hhas, hread, hch, Bool.not_true, Bool.false_eq_true, if_false]
+  | .link _, _, _, _, hp, _, _, _, _ => by simp [Node.plain] at hp
+  | .other, _, _, _, hp, _, _, _, _ => by simp [Node.plain] at hp
+theorem checkoutChildren_over {ctx : Ctx κ} (g : Good ctx) (s : Store κ) (strat1 strat2 : Strat) :
+    ∀ (r : List (Name × Node κ)) (ch : Choice) (fuel : Nat),
+    plainList r = true → sortedList r = true → NamesOKList ctx r → HoldsList ctx s ch r →
+    depthList r ≤ fuel → ∀ pre : List (Name × Node κ), (∀ p ∈ pre, ∀ e ∈ r, p.1 ≠ e.1) →
+      checkoutChildren (checkoutNode ctx strat2 s fuel) (pre ++ wsAfterList ctx strat1 r)
+        (childrenAs ctx ch r) = .ok (pre ++ wsAfterList ctx (coStrat strat1 strat2) r)
+  | [], _, _, _, _, _, _, _, pre, _ => by
+    simp [childrenAs, checkoutChildren, wsAfterList_nil]
+  | (nm, n) :: r, ch, fuel, hp, hs, hn, h, hf, pre, hpre => by
+    simp only [HoldsList] at h
+    have hdn : depth n ≤ fuel := by simp only [depthList] at hf; omega
+    have hdr : depthList r ≤ fuel := by simp only [depthList] at hf; omega
+    have h1 := checkoutNode_over g s strat1 strat2 n (subChoice ch nm) nm fuel
+      (plainList_cons hp).1 (sortedList_cons hs).1 (namesOK_node hn) h.1 hdn
+    have hfresh : ∀ p ∈ pre, p.1 ≠ nm := fun p hp' => hpre p hp' (nm, n) (by simp)
+    have hpre' : ∀ p ∈ pre ++ [(nm, wsAfter ctx (coStrat strat1 strat2) n)], ∀ e ∈ r,
+        p.1 ≠ e.1 := by
+      intro p hp' e he
+      rcases List.mem_append.1 hp' with hp' | hp'
+      · exact hpre p hp' e (by simp [he])
+      · simp only [List.mem_singleton] at hp'
+        subst hp'
+        exact sortedList_head_ne hs e he
+    have h2 := checkoutChildren_over g s strat1 strat2 r ch fuel (plainList_cons hp).2
+      (sortedList_cons hs).2 (namesOK_tail hn) h.2 hdr _ hpre'
+    simp only [List.append_assoc, List.cons_append, List.nil_append] at h2
+    simp only [childrenAs, wsAfterList_cons, checkoutChildren,
+      alookup_append_fresh pre nm _ _ hfresh, h1, setEntry_append_fresh pre nm _ _ _ hfresh]
     exact h2
 end
 
